@@ -11,7 +11,11 @@ ResolverProofs.v re-checks it against DnsSpec.v):
   * the list of BUF_OVERFLOW_CHECK(j + k, len) offsets k in textual order, and the comparison of the
     macro itself;
   * the comparison operator of the "prevent infinite looping" pointer guard;
-  * the three comparison operators of the swap condition of resolver_srv_list_sort.
+  * the three comparison operators of the swap condition of resolver_srv_list_sort;
+  * the remaining guards of message_name_get / message_name_append_safe: `i >= buf_len` (both uses),
+    `i + label_len - 1 >= buf_len`, the "name buffer is full" test `name_len >= name_max && name_max > 0`,
+    the room computation `name_max > name_len ? name_max - name_len : 0` (every use), `copy_len > 0`,
+    the terminator guard `name_max > 0` and the `name_len > 0` guard of the trailing-dot repair.
 """
 import re
 
@@ -111,7 +115,25 @@ def generate():
     sw = need(r"if\s*\(\s*\(\s*rr_current->priority\s*(\S+)\s*rr_next->priority\s*\)\s*\|\|\s*"
               r"\(\s*rr_current->priority\s*(\S+)\s*rr_next->priority\s*&&\s*"
               r"rr_current->weight\s*(\S+)\s*rr_next->weight\s*\)\s*\)", srt, "swap condition")
-    for o in (mac.group(1), pg.group(1)) + sw.groups():
+    # the other guards of message_name_get / message_name_append_safe
+    idx = re.findall(r"if\s*\(\s*i\s*(\S+)\s*buf_len\s*\)\s*return\s+0\s*;", get)
+    if len(idx) != 2 or idx[0] != idx[1]:
+        raise T.TranslateError("`if (i >= buf_len) return 0;` guards: %r" % idx)
+    le = need(r"if\s*\(\s*i\s*\+\s*label_len\s*-\s*(\w+)\s*(\S+)\s*buf_len\s*\)\s*return\s+0\s*;", get, "label end guard")
+    full = need(r"if\s*\(\s*name\s*!=\s*NULL\s*&&\s*name_len\s*(\S+)\s*name_max\s*&&\s*name_max\s*(\S+)\s*0\s*\)\s*\{",
+                get, "name buffer full test")
+    app = func_body(src, "message_name_append_safe")
+    rooms = re.findall(r"name_max\s*(\S+)\s*name_len\s*\?\s*name_max\s*-\s*name_len\s*:\s*0", app + get)
+    if len(rooms) != 2 or rooms[0] != rooms[1]:
+        raise T.TranslateError("room computations `name_max > name_len ? name_max - name_len : 0`: %r" % rooms)
+    need(r"copy_len\s*=\s*xmpp_min\(\s*tail_len\s*,\s*copy_len\s*\)\s*;", app, "copy_len = xmpp_min(tail_len, copy_len)")
+    cg = need(r"if\s*\(\s*copy_len\s*(\S+)\s*0\s*\)", app, "copy_len guard")
+    tg = need(r"if\s*\(\s*name\s*!=\s*NULL\s*&&\s*name_max\s*(\S+)\s*0\s*\)\s*\{", get, "terminator guard")
+    need(r"name\[\s*xmpp_min\(\s*name_len\s*,\s*name_max\s*\)\s*-\s*1\s*\]\s*=\s*'\\0'\s*;", get, "terminator position")
+    need(r"name\[\s*name_max\s*-\s*1\s*\]\s*=\s*'\\0'\s*;\s*name\s*=\s*NULL\s*;\s*name_max\s*=\s*0\s*;", get, "full-buffer retirement")
+    fx = need(r"if\s*\(\s*name\s*!=\s*NULL\s*&&\s*name_len\s*(\S+)\s*0\s*&&\s*name\[name_len\]\s*==\s*'\\0'\s*\)\s*"
+              r"name\[\s*name_len\s*-\s*1\s*\]\s*=\s*'\\0'\s*;", get, "trailing-dot repair")
+    for o in (mac.group(1), pg.group(1)) + sw.groups() + (idx[0], le.group(2), rooms[0], cg.group(1), tg.group(1), fx.group(1)) + full.groups():
         if o not in OPS:
             raise T.TranslateError("unexpected comparison operator %r" % o)
 
@@ -131,4 +153,21 @@ def generate():
     out += "\n(* resolver_srv_list_sort: swap condition on (current, next) *)\n"
     out += ("Definition srv_swap (cp cw np nw : Z) : bool :=\n  %s || (%s && %s).\n"
             % (OPS[sw.group(1)] % ("cp", "np"), OPS[sw.group(2)] % ("cp", "np"), OPS[sw.group(3)] % ("cw", "nw")))
+    out += "\n(* message_name_get: `if (i %s buf_len) return 0;` (before the length octet and before the pointer's second octet) *)\n" % idx[0]
+    out += "Definition idx_guard (i buf_len : Z) : bool := %s.\n" % (OPS[idx[0]] % ("i", "buf_len"))
+    out += "\n(* message_name_get: `if (i + label_len - %s %s buf_len) return 0;` *)\n" % (le.group(1), le.group(2))
+    out += "Definition label_end_adjust : Z := %d.\n" % T.c_int(le.group(1))
+    out += "Definition label_end_guard (last buf_len : Z) : bool := %s.\n" % (OPS[le.group(2)] % ("last", "buf_len"))
+    out += "\n(* message_name_get: `name_len %s name_max && name_max %s 0`: the name buffer is full, do not pass it on *)\n" % full.groups()
+    out += "Definition name_full (name_len name_max : Z) : bool := %s && %s.\n" % (
+        OPS[full.group(1)] % ("name_len", "name_max"), OPS[full.group(2)] % ("name_max", "0"))
+    out += "\n(* `name_max %s name_len ? name_max - name_len : 0` (message_name_append_safe and the recursive call) *)\n" % rooms[0]
+    out += "Definition room_left (name_max name_len : Z) : Z := if %s then name_max - name_len else 0.\n" % (
+        OPS[rooms[0]] % ("name_max", "name_len"))
+    out += "\n(* message_name_append_safe: `if (copy_len %s 0) memcpy(...)` *)\n" % cg.group(1)
+    out += "Definition copy_guard (copy_len : Z) : bool := %s.\n" % (OPS[cg.group(1)] % ("copy_len", "0"))
+    out += "\n(* message_name_get: `if (name != NULL && name_max %s 0)` before the final terminator *)\n" % tg.group(1)
+    out += "Definition term_guard (name_max : Z) : bool := %s.\n" % (OPS[tg.group(1)] % ("name_max", "0"))
+    out += "\n(* message_name_get: `name_len %s 0 && name[name_len] == 0` before the trailing-dot repair *)\n" % fx.group(1)
+    out += "Definition fixup_guard (name_len : Z) : bool := %s.\n" % (OPS[fx.group(1)] % ("name_len", "0"))
     return out
